@@ -1,0 +1,94 @@
+//go:build verif
+
+// Accessors used by the verification harness in /verif. This file is only
+// compiled with the build tag "verif"; it adds no behaviour to the package.
+
+package expr
+
+import (
+	"encoding/hex"
+	"strings"
+)
+
+func verifHex(s string) string { return "x" + hex.EncodeToString([]byte(s)) }
+
+func verifColumns(cs []columnAccessor) string {
+	var b strings.Builder
+	b.WriteString("(")
+	for i, c := range cs {
+		if i > 0 {
+			b.WriteString(" ")
+		}
+		switch c := c.(type) {
+		case basicColumn:
+			b.WriteString("(c " + verifHex(c.table) + " " + verifHex(c.column) + ")")
+		case sqlFunctionCall:
+			b.WriteString("(f " + verifHex(c.raw) + ")")
+		default:
+			b.WriteString("(unknown)")
+		}
+	}
+	b.WriteString(")")
+	return b.String()
+}
+
+func verifAccessor(m memberAccessor) string {
+	return "(m " + verifHex(m.typeName) + " " + verifHex(m.memberName) + ")"
+}
+
+func verifAccessors(ms []memberAccessor) string {
+	var b strings.Builder
+	b.WriteString("(")
+	for i, m := range ms {
+		if i > 0 {
+			b.WriteString(" ")
+		}
+		b.WriteString(verifAccessor(m))
+	}
+	b.WriteString(")")
+	return b.String()
+}
+
+// VerifDump returns the parsed segments (kind, raw source text and parts) in
+// a canonical one line format.
+func (pe *ParsedExpr) VerifDump() string {
+	var b strings.Builder
+	for i, e := range pe.exprs {
+		if i > 0 {
+			b.WriteString(" ")
+		}
+		switch e := e.(type) {
+		case *bypass:
+			b.WriteString("(B " + verifHex(e.chunk) + ")")
+		case *memberInputExpr:
+			b.WriteString("(IN " + verifHex(e.raw) + " " + verifAccessor(e.ma) + ")")
+		case *sliceInputExpr:
+			b.WriteString("(SL " + verifHex(e.raw) + " " + verifHex(e.sliceTypeName) + ")")
+		case *asteriskInsertExpr:
+			b.WriteString("(AI " + verifHex(e.raw) + " " + verifAccessors(e.sources) + ")")
+		case *columnsInsertExpr:
+			b.WriteString("(CI " + verifHex(e.raw) + " " + verifColumns(e.columns) + " " + verifAccessors(e.sources) + ")")
+		case *basicInsertExpr:
+			b.WriteString("(BI " + verifHex(e.raw) + " " + verifColumns(e.columns) + " (")
+			for j, v := range e.sources {
+				if j > 0 {
+					b.WriteString(" ")
+				}
+				switch v := v.(type) {
+				case memberAccessor:
+					b.WriteString(verifAccessor(v))
+				case literal:
+					b.WriteString("(l " + verifHex(v.value) + ")")
+				default:
+					b.WriteString("(unknown)")
+				}
+			}
+			b.WriteString("))")
+		case *outputExpr:
+			b.WriteString("(OUT " + verifHex(e.raw) + " " + verifColumns(e.sourceColumns) + " " + verifAccessors(e.targetTypes) + ")")
+		default:
+			b.WriteString("(unknown)")
+		}
+	}
+	return b.String()
+}
